@@ -43,7 +43,7 @@ for l in lines:
         print(f"(git apply MUTANT{I}.diff 2>/dev/null || git apply -3 MUTANT{I}.diff) && applied=1")
     elif re.search(r"\bgo (test|run|vet)\b|run\.sh",s):
         s2=re.sub(r"timeout \d+ ","timeout 600 ",s)
-        print(f"( {s2} ) > .demo_out.txt 2>&1; rc=$?; echo \"RESULT applied=$applied rc=$rc :: {s[:100].replace(chr(34),'')}\"")
+        print(f"( set -o pipefail; {s2} ) > .demo_out.txt 2>&1; rc=$?; echo \"RESULT applied=$applied rc=$rc :: {s[:100].replace(chr(34),'')}\"")
     elif re.match(r"(cp|rm|mv|mkdir|export|cd|chmod|ulimit|git worktree|git status|git diff)\b",s):
         if s.startswith("cd ") and not s.startswith("cd "+W): 
             if s.startswith("cd /"): continue
